@@ -11,6 +11,7 @@ real type objects.
 """
 import asyncio
 import dataclasses
+import threading
 
 import pydantic
 import hashlib
@@ -30,21 +31,24 @@ class Recorder:
         self._uid = 0
         self._bid = 0
         self.seq = 0
+        self._lock = threading.Lock()
 
     def new_uid(self):
-        self._uid += 1
-        return self._uid
+        with self._lock:
+            self._uid += 1
+            return self._uid
 
     def new_bid(self):
         self._bid += 1
         return self._bid
 
     def add(self, k, **kw):
-        self.seq += 1
-        kw["k"] = k
-        kw["t"] = vclock.vnow()
-        kw["n"] = self.seq
-        self.log.append(kw)
+        with self._lock:
+            self.seq += 1
+            kw["k"] = k
+            kw["t"] = vclock.vnow()
+            kw["n"] = self.seq
+            self.log.append(kw)
         return kw
 
     def of(self, *kinds):
@@ -199,6 +203,7 @@ async def _interp(ctx, ev, sp, prog):
         _step_point(step, how)
 
 
+_SYNC_LOCK = threading.Lock()
 _NTH = {}  # step name -> entries so far in this case (reset with the recorder)
 
 
@@ -240,6 +245,114 @@ def _val(spec, ev, att, default=None):
             return default
         spec = spec[min(att, len(spec) - 1)]
     return default if spec is None else spec
+
+
+def _ret_value(act, ev, sp, prog, att, v, uid, bid, local, state_val=None):
+    """the value a 'ret' act returns (shared by async and sync step bodies)"""
+    r = REC
+    step = sp["name"]
+    t = act.get("type")
+    if t is None:
+        return None
+    if t in ("nonevent", "nonevent_falsy"):
+        r.add("nonevent_return", step=step, bid=bid, uid=uid, kind=t)
+    if t == "nonevent":
+        return 42
+    if t == "nonevent_falsy":
+        # a non-event that is falsy: 0, "", [], {}, False are no more events than 42 is
+        return [0, "", [], {}, False][pick_index(prog.get("sched_seed", 0), step, 5)]
+    cv = f"{v}>{step}.r"
+    extra = dict(act.get("pay") or {})
+    for fld in act.get("copy", []):
+        extra[fld] = ev.get(fld, None)
+    if t in ("StopEvent", "Done"):
+        res = act.get("result", "v")
+        if res == "v":
+            extra["result"] = {"v": v}
+        elif res == "collected":
+            extra["result"] = {"v": v, "got": sorted(str(x.get("v", None)) for x in local.get("collected", []))}
+        elif res == "waited":
+            w = local.get("waited")
+            extra["result"] = {"v": v, "waited": None if w is None else w.get("v", None), "timed_out": local.get("timed_out", False)}
+        elif res == "state":
+            extra["result"] = {"v": v, "state": state_val}
+        elif res == "const":
+            extra["result"] = {"done": True, "in": str(v)}
+        else:
+            extra["result"] = res
+    if act.get("v_const") is not None:
+        cv = act["v_const"]  # order-independent lineage (deterministic result under any schedule)
+    e = mk_event(t, cv, extra)
+    r.add("emit", how="return", step=step, bid=bid, att=att, uid=e.get("uid"), v=cv, type=t, target=None, parent=uid)
+    return e
+
+
+def _collect_act(ctx, ev, act, step, bid, uid, local):
+    from vf import events as E
+
+    r = REC
+    types_ = [E.BY_NAME[t] for t in act["types"]]
+    buf = act.get("buf")
+    if act.get("buf_from") is not None:
+        buf = f"b{ev.get(act['buf_from'], 0)}"
+    got = ctx.collect_events(ev, types_, buffer_id=buf)
+    r.add("collect", step=step, bid=bid, uid=uid, buf=buf or "default", etype=type(ev).__name__,
+          got=None if got is None else [[type(x).__name__, x.get("uid", None), x.get("v", None)] for x in got])
+    if got is not None:
+        local["collected"] = got
+    return got
+
+
+def _interp_sync(ctx, ev, sp, prog):
+    """the same instrumented body for a plain `def` step (runs in an executor thread): only the acts a synchronous body can perform
+    -- real-time jitter, raise, collect_events, return.  It takes no virtual time."""
+    import time as _time
+
+    r = REC
+    step = sp["name"]
+    ri = ctx.retry_info()
+    att = ri.retry_number
+    with _SYNC_LOCK:
+        bid = r.new_bid()
+        _NTH[step] = _NTH.get(step, 0) + 1
+    uid = _ev_uid(ev)
+    v = _ev_v(ev)
+    r.add("enter", step=step, uid=uid, v=v, att=att, bid=bid, type=type(ev).__name__, sync=True,
+          lastexc=(type(ri.last_exception).__name__ + ":" + str(ri.last_exception)) if ri.last_exception is not None else None,
+          elapsed=ri.elapsed_seconds)
+    how = "return"
+    out = None
+    local = {}
+    try:
+        for act in sp["acts"]:
+            k = act["k"]
+            if k in ("sleep", "rsleep"):
+                # real-time jitter so that parallel executor threads really interleave
+                _time.sleep(pick([0, 0.0005, 0.001, 0.002, 0.004], prog.get("sched_seed", 0), step, v, att, "rs"))
+            elif k == "fail":
+                n = _val(act.get("n", 1), ev, att, 0)
+                if n < 0 or att < n:
+                    exc = EXC[_val(act.get("exc", "VfError"), ev, att, "VfError")]
+                    raise exc(f"{step}|{v}|{att}")
+            elif k == "collect":
+                if _collect_act(ctx, ev, act, step, bid, uid, local) is None:
+                    if act.get("cont"):
+                        continue
+                    return None
+            elif k == "ret":
+                out = _ret_value(act, ev, sp, prog, att, v, uid, bid, local)
+                return out
+            else:
+                raise AssertionError(f"act {k} is not available to a synchronous step body")
+        return None
+    except BaseException as e:  # noqa: BLE001
+        how = "raise:" + type(e).__name__
+        raise
+    finally:
+        from workflows.events import Event
+
+        r.add("exit", step=step, uid=uid, v=v, att=att, bid=bid, how=how, out_uid=(out.get("uid", None) if isinstance(out, Event) else None),
+              out_type=(type(out).__name__ if out is not None else None))
 
 
 async def _run_acts(ctx, ev, sp, prog, att, v, uid, bid):
@@ -287,20 +400,10 @@ async def _run_acts(ctx, ev, sp, prog, att, v, uid, bid):
                 exc = EXC[_val(act.get("exc", "VfError"), ev, att, "VfError")]
                 raise exc(f"{step}|{v}|{att}")
         elif k == "collect":
-            from vf import events as E
-
-            types_ = [E.BY_NAME[t] for t in act["types"]]
-            buf = act.get("buf")
-            if act.get("buf_from") is not None:
-                buf = f"b{ev.get(act['buf_from'], 0)}"
-            got = ctx.collect_events(ev, types_, buffer_id=buf)
-            r.add("collect", step=step, bid=bid, uid=uid, buf=buf or "default", etype=type(ev).__name__,
-                  got=None if got is None else [[type(x).__name__, x.get("uid", None), x.get("v", None)] for x in got])
-            if got is None:
+            if _collect_act(ctx, ev, act, step, bid, uid, local) is None:
                 if act.get("cont"):
                     continue   # this invocation goes on to feed another buffer
                 return None
-            local["collected"] = got
         elif k == "wait":
             from vf import events as E
 
@@ -362,40 +465,11 @@ async def _run_acts(ctx, ev, sp, prog, att, v, uid, bid):
                     s[act["key"]] = s.get(act["key"], 0) + 1
             r.add("state", step=step, bid=bid, op=op, key=act["key"])
         elif k == "ret":
-            t = act.get("type")
-            if t is None:
-                return None
-            if t in ("nonevent", "nonevent_falsy"):
-                r.add("nonevent_return", step=step, bid=bid, uid=uid, kind=t)
-            if t == "nonevent":
-                return 42
-            if t == "nonevent_falsy":
-                # a non-event that is falsy: 0, "", [], {}, False are no more events than 42 is
-                return [0, "", [], {}, False][pick_index(prog.get("sched_seed", 0), step, 5)]
-            cv = f"{v}>{step}.r"
-            extra = dict(act.get("pay") or {})
-            for fld in act.get("copy", []):
-                extra[fld] = ev.get(fld, None)
-            if t in ("StopEvent", "Done"):
-                res = act.get("result", "v")
-                if res == "v":
-                    extra["result"] = {"v": v}
-                elif res == "collected":
-                    extra["result"] = {"v": v, "got": sorted(str(x.get("v", None)) for x in local.get("collected", []))}
-                elif res == "waited":
-                    w = local.get("waited")
-                    extra["result"] = {"v": v, "waited": None if w is None else w.get("v", None), "timed_out": local.get("timed_out", False)}
-                elif res == "state":
-                    extra["result"] = {"v": v, "state": (await ctx.store.get_state()).to_dict() if hasattr(await ctx.store.get_state(), "to_dict") else None}
-                elif res == "const":
-                    extra["result"] = {"done": True, "in": str(v)}
-                else:
-                    extra["result"] = res
-            if act.get("v_const") is not None:
-                cv = act["v_const"]  # order-independent lineage (deterministic result under any schedule)
-            e = mk_event(t, cv, extra)
-            r.add("emit", how="return", step=step, bid=bid, att=att, uid=e.get("uid"), v=cv, type=t, target=None, parent=uid)
-            return e
+            state_val = None
+            if act.get("result") == "state" and act.get("type") in ("StopEvent", "Done"):
+                st = await ctx.store.get_state()
+                state_val = st.to_dict() if hasattr(st, "to_dict") else None
+            return _ret_value(act, ev, sp, prog, att, v, uid, bid, local, state_val)
         else:
             raise AssertionError(f"unknown act {k}")
     return None
@@ -501,6 +575,12 @@ def build_workflow(spec):
         ret_types = [E.BY_NAME[t] for t in prod] + [type(None)]
 
         def make(sp_):
+            if sp_.get("sync"):
+                # plain `def` step: the engine runs it in the default thread pool
+                def fn(self, ctx, ev):
+                    return _interp_sync(ctx, ev, sp_, spec)
+
+                return fn
             if sp_.get("late"):
                 # free function, attached to the class with add_step AFTER an instance exists (make_instance)
                 async def fn(ctx, ev):
